@@ -2,10 +2,12 @@ package main
 
 import (
 	"fmt"
+	"strings"
 	"sync"
 
 	fpgo "github.com/TeaEntityLab/fpGo/v2"
 	"github.com/TeaEntityLab/fpGo/v2/zzverif/vsched"
+	"verifharness/lib"
 	"verifharness/lib/e1"
 	"verifharness/lib/lin"
 )
@@ -19,6 +21,7 @@ type probe struct {
 	inside int
 	lifo   bool
 	bound  int // > 0: a bounded container, insertions on a full one are refused (never block)
+	poison int // != 0: inserting this value panics inside the container (a validating container), nothing is stored
 }
 
 func (p *probe) enter(name string) {
@@ -33,6 +36,10 @@ func (p *probe) add(v int) error {
 	p.enter("add")
 	cur := p.items
 	vsched.Yield()
+	if p.poison != 0 && v == p.poison {
+		p.leave()
+		panic("the wrapped container rejects this value")
+	}
 	if p.bound > 0 && len(cur) >= p.bound {
 		p.leave()
 		if p.lifo {
@@ -115,6 +122,9 @@ func conScenario(stack bool, inner string, preload []int, threads [][]stepSpec, 
 			if inner == "probe" {
 				p := &probe{lifo: stack}
 				q, s = p, p
+			} else if inner == "poison-probe" {
+				p := &probe{lifo: stack, poison: 666}
+				q, s = p, p
 			} else if inner == "bounded-probe" {
 				p := &probe{lifo: stack, bound: 2}
 				q, s = p, p
@@ -139,23 +149,30 @@ func conScenario(stack bool, inner string, preload []int, threads [][]stepSpec, 
 				vsched.Event("call", my, client, st.kind, st.arg)
 				var v int
 				var err error
-				switch st.kind {
-				case "offer":
-					err = cq.Offer(st.arg)
-				case "put":
-					err = cq.Put(st.arg)
-				case "poll":
-					v, err = cq.Poll()
-				case "take":
-					v, err = cq.Take()
-				case "push":
-					err = cs.Push(st.arg)
-				case "pop":
-					v, err = cs.Pop()
-				}
+				// (a panic of the wrapped container passes through the wrapper to the caller, who recovers: the
+				// call counts as a refused insertion, and the wrapper must stay usable for everybody)
+				pan := lib.Catch(func() {
+					switch st.kind {
+					case "offer":
+						err = cq.Offer(st.arg)
+					case "put":
+						err = cq.Put(st.arg)
+					case "poll":
+						v, err = cq.Poll()
+					case "take":
+						v, err = cq.Take()
+					case "push":
+						err = cs.Push(st.arg)
+					case "pop":
+						v, err = cs.Pop()
+					}
+				})
 				es := ""
 				if err != nil {
 					es = err.Error()
+				}
+				if pan != "" {
+					es = "PANIC:" + pan
 				}
 				vsched.Event("ret", my, v, es)
 			}
@@ -232,6 +249,8 @@ func conScenario(stack bool, inner string, preload []int, threads [][]stepSpec, 
 						}
 						if inner == "bounded-probe" && es == full {
 							op.Full = true
+						} else if inner == "poison-probe" && op.Arg == 666 && strings.HasPrefix(es, "PANIC:") {
+							op.Full = true // refused: nothing was stored
 						} else {
 							fs = append(fs, e1.Fail("C08|"+fam+"|add-failed", "add failed with %q", es))
 						}
@@ -246,9 +265,12 @@ func conScenario(stack bool, inner string, preload []int, threads [][]stepSpec, 
 				h = append(h, *ops[id])
 			}
 			_ = nops
-			lin.Cap = 0
+			lin.Cap, lin.Poison = 0, 0
 			if inner == "bounded-probe" {
 				lin.Cap = 2
+			}
+			if inner == "poison-probe" {
+				lin.Poison = 666
 			}
 			if !lin.Linearizable(stack, preloadOrder(preload), h) {
 				fs = append(fs, e1.Fail("C08|"+fam+"|not-linearizable", "history has no sequential explanation consistent with real time: %v", h))
@@ -324,6 +346,20 @@ func scenarios(tier string) []*vsched.Scenario {
 		{[]int{7}, [][]stepSpec{{ps(1), ps(2)}, {pp()}}},
 	} {
 		out = append(out, conScenario(true, "bounded-probe", s.pre, s.ts, b))
+	}
+	// a wrapped container that panics on one value (the caller recovers): the wrapper stays usable
+	for _, s := range []sc{
+		{nil, [][]stepSpec{{o(666), o(1)}, {po()}}},
+		{[]int{7}, [][]stepSpec{{pu(666)}, {po(), o(2)}}},
+		{nil, [][]stepSpec{{o(666)}, {pu(1)}, {ta()}}},
+	} {
+		out = append(out, conScenario(false, "poison-probe", s.pre, s.ts, b))
+	}
+	for _, s := range []sc{
+		{nil, [][]stepSpec{{ps(666), ps(1)}, {pp()}}},
+		{[]int{7}, [][]stepSpec{{ps(666)}, {pp(), ps(2)}}},
+	} {
+		out = append(out, conScenario(true, "poison-probe", s.pre, s.ts, b))
 	}
 	for _, inner := range []string{"probe", "linked"} {
 		for _, s := range queue {
